@@ -545,6 +545,9 @@ impl<E: Effect, R: CommandReceiver<E>, S: EventSender<E>> Worker<E, R, S> {
             if let Some(result) = result_opt {
                 self.notify_result(awaiter, awaited, result)?;
                 has_any_result = true;
+            } else {
+                // "Not finished yet" is an answer too: the select may now evaluate its sources.
+                self.executor.mark_await_answered(awaiter, awaited);
             }
         }
 
